@@ -250,6 +250,52 @@ def run(ctx):
                     if -1 in pre["ax"]["vrnt"] or not pre["ok"]["cells"]:
                         continue
                     genotype_step(ctx, cur, pre, kind, "all", rng, out, hid, 0, which, invert)
+    # raw blocks WITHOUT the optional name array adjoined / inserted into named matrices: the new entities carry no name (None); the mutating form (append, incorp) must leave the object in the state its non-mutating counterpart returns
+    for clsname in lm.CLASSES:
+        cls, kind = lm.get_class(clsname)
+        if kind in ("SQ", "SQR"):
+            continue                                   # square insertions are an open finding (one axis only)
+        for a in lm.KINDS[kind][0]:
+            if a == "trait":
+                continue                               # a trait block without its trait names is not a valid argument
+            for k in ((1, 2, 3) if thorough else (1, 3)):
+                for op in ("adjoin", "insert"):
+                    for form in ("specific", "generic+"):
+                        hid += 1
+                        ax0 = {x: ([rng.randrange(lm.NID) for _ in range(rng.randrange(2, 4))] if x in lm.KINDS[kind][0] else []) for x in ("taxa", "vrnt", "trait")}
+                        try:
+                            cur = lm.build(clsname, ax0, "all")
+                            bax = dict(ax0); bax[a] = [rng.randrange(lm.NID) for _ in range(k)]
+                            blk = lm.build(clsname, bax, "all")
+                        except Exception:
+                            continue
+                        pre0 = lm.project(cur, kind)
+                        pos = rng.randrange(len(ax0[a]) + 1)
+                        states = []
+                        err = None
+                        # the label arrays the library requires with a raw block are given; the optional NAME array is omitted
+                        lkw = {}
+                        for f in lm.FIELDS[a]:
+                            v = getattr(blk, lm.ATTR[(a, f)], None)
+                            if v is not None and f != "name":
+                                lkw[lm.ATTR[(a, f)]] = v
+                        for mut in (False, True):
+                            work = copy.deepcopy(cur)
+                            name = (lm.MUT[op] if mut else op)
+                            meth = getattr(work, name + "_" + a) if form == "specific" else getattr(work, name)
+                            axkw = {} if form == "specific" else {"axis": getattr(work, a + "_axis")}
+                            try:
+                                with time_limit(20):
+                                    posa = np.array([pos] * k, dtype=int)       # positions as an array, one per inserted entity (Appendix A)
+                                    res = meth(posa, np.array(blk.mat), **axkw, **lkw) if op == "insert" else meth(np.array(blk.mat), **axkw, **lkw)
+                                states.append(lm.project(work if mut else res, kind))
+                            except Exception as e:
+                                err = "%s: %s" % (type(e).__name__, str(e)[:200]); states.append(pre0)
+                        out.append({"qual": "%s.%s%s[raw block without names]" % (clsname, lm.MUT[op], "_" + a if form == "specific" else ""),
+                                    "id": len(out) + 1, "hist": hid, "step": 0, "cls": clsname, "kind": kind, "presence": "all", "axis": a,
+                                    "op": "counterpart", "realop": op, "form": form, "mut": True, "ix": [], "del": [], "pos": [pos], "blk": bax[a],
+                                    "raw": True, "objrepr": "k=%d" % k, "pre": states[0], "post": states[1], "opnd": states[1], "err": err,
+                                    "lexsortok": True, "tab": lm.TAB})
     tl = []
     for c in out:
         d = {k: v for k, v in c.items()}
